@@ -61,6 +61,7 @@ class Mon:
         self.keys = list(keys)
         self.tiers = tiers
         self.hard_ns = hard_ns
+        self.skip_dirty_invalidate = True
         self.hist: list[dict] = []
         self.writes: dict[str, list[dict]] = {k: [] for k in keys}
         self.facts: dict[str, list[tuple]] = {k: [] for k in keys}  # key -> [(t, kind, info)]
@@ -160,9 +161,12 @@ class Mon:
         if before is not None:
             for k in self.keys:
                 v = self.timeline[k][-1][1]
-                if v != before[k] and v is not None and k in self.latest and self.latest[k] is None:
-                    # the flush's write-back landed after a delete of the key had started
-                    self.facts[k].append((t, "flush-overlaps-delete", {"op": rec["id"], "wrote": v}))
+                if v != before[k] and v is not None and k in self.latest and self.latest[k] != v:
+                    # the flush's write-back landed after a newer write to the key had started
+                    lw = [w for w in self.writes[k] if w["val"] == self.latest[k] and w["kind"] != "init"]
+                    lk = lw[-1]["kind"] if lw else "?"
+                    name = {"put": "put", "delete": "delete"}.get(lk, "direct-write")
+                    self.facts[k].append((t, f"flush-overlaps-{name}", {"op": rec["id"], "wrote": v, "latest": self.latest[k]}))
         for ti, tier in enumerate(self.tiers):
             if pre[ti] is None:
                 continue
@@ -179,7 +183,8 @@ class Mon:
                         how = "invalidate-of-dirty-key"
                     else:
                         how = "eviction-of-dirty-key"
-                    self.discards.append({"t": t, "key": k, "want": want, "how": how, "op": rec["id"], "tier": tier.label})
+                    reached = want is None or want in self.seen_backing[k]
+                    self.discards.append({"t": t, "key": k, "want": want, "how": how, "op": rec["id"], "tier": tier.label, "reached": reached})
                 elif self.backing.get_sync(k) != want:
                     # dirty flag cleared while the cache holds a value the backing store has not got
                     self.facts[k].append((t, "flush-overlaps-put", {"op": rec["id"], "backing": self.backing.get_sync(k), "latest": want}))
@@ -227,9 +232,17 @@ class Mon:
         elif kind == "flush":
             gen = st.flush()
         elif kind == "inv":
-            st.invalidate(key)
+            if self.skip_dirty_invalidate and self._is_dirty(key):
+                rec["skipped"] = True
+                self.res.count("invalidate_of_dirty_key_skipped")
+            else:
+                st.invalidate(key)
         elif kind == "invall":
-            st.invalidate_all()
+            if self.skip_dirty_invalidate and self._is_dirty(None):
+                rec["skipped"] = True
+                self.res.count("invalidate_of_dirty_key_skipped")
+            else:
+                st.invalidate_all()
         elif kind in ("bput", "bdel", "bput_raw", "bdel_raw"):
             if kind.startswith("bdel"):
                 rec["val"] = None
@@ -273,6 +286,14 @@ class Mon:
         if kind in ("get", "l2get"):
             self._after_get(rec)
         return rec
+
+    def _is_dirty(self, key):
+        for t in self.tiers:
+            if t.write_back:
+                d = t.store.get_dirty_keys()
+                if (key is None and d) or (key is not None and key in d):
+                    return True
+        return False
 
     # ---- multi-tier helpers
     def _tier_hit(self, key):
@@ -352,8 +373,9 @@ class Mon:
         ws = self.writes[k]
         cands = [x for x in ws if x["val"] == r]
         self.res.count("reads_checked")
+        path = rec.get("path")  # soft-TTL caches: the mechanism is the read path the cache took
         if not cands:
-            self.violate("stale-read", "value-never-written", f"get({k}) returned {r!r} which no write produced", {"read": self._brief(rec)})
+            self.violate("stale-read", path or "value-never-written", f"get({k}) returned {r!r} which no write produced", {"read": self._brief(rec), "history": self.key_history(k)})
             return
         best = None
         for x in cands:
@@ -365,11 +387,13 @@ class Mon:
             if best is None or x["start"] > best[0]["start"]:
                 best = (x, sup)
         if best is None:
-            self.violate("stale-read", "value-from-the-future", f"get({k}) returned {r!r} before its write began", {"read": self._brief(rec)})
+            self.violate("stale-read", path or "value-from-the-future", f"get({k}) returned {r!r} before its write began", {"read": self._brief(rec), "history": self.key_history(k)})
             return
         x, sup = best
         wstar = max(sup, key=lambda w: w["start"])
         shape, info = self._attribute(k, wstar["start"], rec["end"])
+        if path:
+            shape = path
         self.res.count("stale_reads")
         if shape.startswith("after-"):
             self.res.count("stale_reads_downstream_of_reported_discard")
@@ -425,17 +449,25 @@ class Mon:
         """Write-back data dropped from the cache must have reached the backing store (then or via an in-flight flush)."""
         for d in self.discards:
             self.res.count("dirty_drops_checked")
-            if d["want"] is None or d["want"] in self.seen_backing[d["key"]]:
+            if d["reached"]:
                 continue
-            # a later write that started before the drop makes the dropped value moot only if it is `latest`; want IS latest
+            d["landed_later"] = d["want"] in self.seen_backing[d["key"]]  # an in-flight flush delivered it afterwards
             d["lost"] = True
+            wr = [w for w in self.writes[d["key"]] if w["val"] == d["want"]]
+            since = wr[-1]["start"] if wr else 0
+            earlier = [f for f in self.facts[d["key"]] if since <= f[0] <= d["t"]]
+            if earlier:
+                # the cached copy had already been replaced by an older value (e.g. by a racing miss-fill):
+                # that mechanism is reported through the read / final-state oracles
+                self.res.count("dirty_drops_downstream_of_earlier_fact")
+                continue
             self.facts[d["key"]].append((d["t"], "after-" + d["how"], {"op": d["op"]}))
             opk = self.hist[d["op"]]
             self.violate(
                 "writeback-discarded",
                 d["how"],
                 f"{d['tier']}: dirty key {d['key']} (value {d['want']!r}) left the cache during {opk['kind']}({opk['key']}) at {d['t']}ns "
-                f"and never reached the backing store",
+                + ("before an in-flight flush delivered it to the backing store" if d["landed_later"] else "and never reached the backing store"),
                 {"drop": {k: d[k] for k in ("t", "key", "want", "how", "tier")}, "during": self._brief(opk), "history": self.key_history(d["key"])},
             )
 
@@ -457,7 +489,7 @@ class Mon:
             if r is None:
                 self.violate(
                     "hard-ttl-exceeded",
-                    f"{path}:none-while-key-always-present",
+                    path,
                     f"get({k}) returned None but the key was never absent from the backing store",
                     {"read": self._brief(rec), "timeline": tl[-8:], "history": self.key_history(k)},
                 )
